@@ -496,7 +496,17 @@ fn run_ladder(case: &Value, args: &Args, rng: &mut Rng) -> Result<(Value, u64), 
     let mut prev = 1u64;
     for j in 0..side {
         let p = uni.tip(prev).address();
-        let c = ACmd::new(ids::basic_id(9, j as u16), Priority::Basic(1), Prior::Single(p), b'n', &format!("s{j}"));
+        // where the side branch sorts relative to the ladder decides when its strand is popped:
+        // mode 0 always last, 2 always first, 1 alternating extremes with the tip first and
+        // its parent last (the tip's strand then waits in the heap across the whole ladder)
+        let mode = case.get("side_mode").and_then(Value::as_u64).unwrap_or(0);
+        let hi = match mode {
+            0 => true,
+            2 => false,
+            _ => (side - 1 - j) % 2 == 1,
+        };
+        let (rank, prio) = if hi { (9u8, 1u32) } else { (0u8, 0u32) };
+        let c = ACmd::new(ids::basic_id(rank, j as u16), Priority::Basic(prio), Prior::Single(p), b'n', &format!("s{j}"));
         add(&mut uni, n, "b", vec![prev], c);
         prev = n;
         n += 1;
